@@ -34,6 +34,7 @@ def gen(rng, tier, index):
     plan["idclass"] = "plain"
     if plan["input_form"] == "objects":
         plan["input_form"] = "paths"
+    plan["preexisting"] = []
     plan["inputs"] = [i for i in plan["inputs"] if "." not in i["stem"]][:5]
     k = 0
     while len(plan["inputs"]) < 2:
